@@ -150,8 +150,9 @@ def run(ctx) -> None:
     # "an event identical to the immediately preceding still-undelivered one may be coalesced into it" — and nothing else may be
     # dropped by the queue (instance shared with C16)
     RQ = ctx.rule("C04/queue-drops-only-pending-duplicates", "the event queue skips an item only if it equals the last enqueued, still pending item (shared with C16)", floor=2)
-    from .c16 import skip_decision
+    from .c16 import queue_bookkeeping, skip_decision
 
+    queue_bookkeeping(ctx, RQ, RQ, RQ)
     skip_decision(ctx, RQ)
     ctx.assumptions += ["threading.RLock provides mutual exclusion and re-entrancy", "queue.Queue is FIFO and hands each item to exactly one get()"]
 
